@@ -182,7 +182,7 @@ theorem getAttr_contDel {g g' : Graph} {c : Cont} {key : Key} (h : contDel g c k
   crack h
   all_goals first
     | (cases h; done)
-    | (cases h; first | rfl | exact getAttr_deleteAll _ _ _ _)
+    | (cases h; exact getAttr_deleteObjs _ _ _ _)
     | exact getAttr_h5Delete h k a
 
 theorem getAttr_createLinkIn (g : Graph) (grp : Nat) (name : String) (t k : Nat) (a : String) :
@@ -252,34 +252,32 @@ def isOwning (f : CFlavour) : Bool :=
   | .plain | .features | .sections | .sources => true
   | _ => false
 
-theorem bfsIds_acc (g : Graph) (sub : String) (fuel : Nat) (q : List Nat) (acc : List String) (x : String)
-    (hx : x ∈ acc) : x ∈ bfsIds g sub fuel q acc := by
+theorem bfsKeys_acc (g : Graph) (sub : String) (fuel : Nat) (q : List Nat) (acc : List Nat) (x : Nat)
+    (hx : x ∈ acc) : x ∈ bfsKeys g sub fuel q acc := by
   induction fuel generalizing q acc with
-  | zero => simpa [bfsIds] using hx
+  | zero => simpa [bfsKeys] using hx
   | succ n ih =>
     cases q with
-    | nil => simpa [bfsIds] using hx
+    | nil => simpa [bfsKeys] using hx
     | cons k rest =>
-      simp only [bfsIds]
+      simp only [bfsKeys]
       apply ih
-      cases g.entityId k <;> simp [hx]
+      simp [hx]
 
-theorem subtreeIds_self (g : Graph) (sub : String) (k : Nat) (i : String) (hi : g.entityId k = some i) :
-    i ∈ subtreeIds g sub k := by
-  unfold subtreeIds
-  simp only [bfsIds]
-  apply bfsIds_acc
-  simp [hi]
+theorem subtreeKeys_self (g : Graph) (sub : String) (k : Nat) : k ∈ subtreeKeys g sub k := by
+  unfold subtreeKeys
+  simp only [bfsKeys]
+  apply bfsKeys_acc
+  simp
 
-/-- no link to an object carrying a deleted id survives `delete_all` -/
-theorem deleteAll_unlinked (g : Graph) (ids : List String) (k : Nat) (i : String)
-    (hi : g.entityId k = some i) (hin : i ∈ ids) (p : Nat) (l : String × Nat)
-    (hl : l ∈ (g.deleteAll ids).links p) : l.2 ≠ k := by
+/-- no link to a deleted object survives `delete_all` -/
+theorem deleteObjs_unlinked (g : Graph) (ks : List Nat) (k : Nat) (hin : k ∈ ks) (p : Nat) (l : String × Nat)
+    (hl : l ∈ (g.deleteObjs ks).links p) : l.2 ≠ k := by
   intro e
-  rw [links_deleteAll] at hl
+  rw [links_deleteObjs] at hl
   have := (List.mem_filter.mp hl).2
-  unfold keepLink at this
-  rw [e, hi] at this
+  unfold keepObj at this
+  rw [e] at this
   simp [hin] at this
 
 /-- what `__delitem__` does once the item is known -/
@@ -287,14 +285,9 @@ def delTail (g : Graph) (c : Cont) (k : Nat) : Except Err Graph :=
   if kindOf g k != c.info.item then .error .typeError
   else
     match c.info.flavour with
-    | .plain | .features =>
-      match g.entityId k with
-      | some i => .ok (g.deleteAll [i])
-      | none => .ok g
-    | .sections => .ok (g.deleteAll (subtreeIds g "sections" k))
-    | .sources =>
-      let ids := subtreeIds g "sources" k
-      .ok (g.deleteAll (ids ++ (match g.entityId k with | some i => [i] | none => [])))
+    | .plain | .features => .ok (g.deleteObjs [k])
+    | .sections => .ok (g.deleteObjs (subtreeKeys g "sections" k))
+    | .sources => .ok (g.deleteObjs (subtreeKeys g "sources" k ++ [k]))
     | .link | .sourceLink =>
       match c.node, g.entityId k with
       | some cn, some i => h5Delete g cn c.owner.key c.cname (c.owner.depth + 1) i true
@@ -315,9 +308,11 @@ theorem contDel_eq (g : Graph) (c : Cont) (key : Key) :
     generalize contGet g c (.pos i) = r
     cases r <;> rfl
 
-theorem contDel_unlinked {g g' : Graph} {c : Cont} {key : Key} {k : Nat} {i : String}
+/-- after `del c[key]` on an owning container no group of the file links the deleted object (whether
+or not it carries an `entity_id`: deletion is by object) -/
+theorem contDel_unlinked {g g' : Graph} {c : Cont} {key : Key} {k : Nat}
     (hown : isOwning c.info.flavour = true) (ht : delTarget g c key = .ok k)
-    (hi : g.entityId k = some i) (hdel : contDel g c key = .ok g') :
+    (hdel : contDel g c key = .ok g') :
     ∀ p l, l ∈ g'.links p → l.2 ≠ k := by
   rw [contDel_eq, ht] at hdel
   change delTail g c k = .ok g' at hdel
@@ -326,17 +321,17 @@ theorem contDel_unlinked {g g' : Graph} {c : Cont} {key : Key} {k : Nat} {i : St
   · cases hdel
   · cases hf : c.info.flavour <;> simp only [hf, isOwning] at hown hdel <;> try cases hown
     · -- plain
-      simp only [hi] at hdel; cases hdel
-      exact fun p l hl => deleteAll_unlinked g _ k i hi (by simp) p l hl
+      cases hdel
+      exact fun p l hl => deleteObjs_unlinked g _ k (by simp) p l hl
     · -- sections
       cases hdel
-      exact fun p l hl => deleteAll_unlinked g _ k i hi (subtreeIds_self g _ k i hi) p l hl
+      exact fun p l hl => deleteObjs_unlinked g _ k (subtreeKeys_self g _ k) p l hl
     · -- sources
       cases hdel
-      exact fun p l hl => deleteAll_unlinked g _ k i hi (by simp [hi]) p l hl
+      exact fun p l hl => deleteObjs_unlinked g _ k (by simp) p l hl
     · -- features
-      simp only [hi] at hdel; cases hdel
-      exact fun p l hl => deleteAll_unlinked g _ k i hi (by simp) p l hl
+      cases hdel
+      exact fun p l hl => deleteObjs_unlinked g _ k (by simp) p l hl
 
 /-- operations that add no link: deletions / unlinking, attribute writes, clearing a role, reopen -/
 def addsNoLink : Op → Bool
@@ -362,7 +357,7 @@ theorem links_contDel {g g' : Graph} {c : Cont} {key : Key} (h : contDel g c key
   crack h
   all_goals first
     | (cases h; done)
-    | (cases h; first | exact hl | exact (links_deleteAll_sublist _ _ _).subset hl)
+    | (cases h; exact (links_deleteObjs_sublist _ _ _).subset hl)
     | exact links_h5Delete h p l hl
 
 theorem links_setRole_none {g g' : Graph} {o : Path} {role : String} (h : setRole g o role none = .ok g')
